@@ -64,8 +64,8 @@ with Pfill : nat -> list D -> list tok -> list D -> list tok -> Prop :=
     P (Some m) toks x r1 -> xeval x = Some s ->
     Pfill n (m ++ [s]) r1 m' rest -> Pfill (S n) m toks m' rest.
 
-Scheme P_ind2 := Induction for P Sort Prop
-  with Pfill_ind2 := Induction for Pfill Sort Prop.
+Scheme P_ind2 := Minimality for P Sort Prop
+  with Pfill_ind2 := Minimality for Pfill Sort Prop.
 Combined Scheme P_Pfill_ind from P_ind2, Pfill_ind2.
 
 (* [E mem toks v rest]: a well-formed prefix expression at the head of the
@@ -230,4 +230,409 @@ Proof.
   rewrite reduce_ser by (intros t []).
   destruct (xeval x); simpl; [apply reduce_n_single|reflexivity].
 Qed.
+
+(* ------------------------------------------------ the recursive translator *)
+(* the back ends have no `rename`, and `apply` knows no operator \S *)
+Hypothesis ren_none : forall m u, ren m u = None.
+Hypothesis ap2_rename_none : forall u v, ap2 Rename u v = None.
+
+Definition no_at (toks : list tok) : Prop := ~ In TAt toks.
+
+Lemma no_at_suffix : forall pre rest, no_at (pre ++ rest) -> no_at rest.
+Proof. intros pre rest H F. apply H, in_or_app. right. exact F. Qed.
+
+Lemma no_at_tl : forall t r, no_at (t :: r) -> no_at r.
+Proof. intros t r H F. apply H. right. exact F. Qed.
+
+Lemma parse_suffix : forall f,
+  (forall toks a rest, parse f toks = Some (a, rest) -> exists pre, toks = pre ++ rest) /\
+  (forall n toks xs rest, parse_many f n toks = Some (xs, rest) -> exists pre, toks = pre ++ rest).
+Proof.
+  induction f as [|f [IH1 IH2]]; [split; intros; discriminate|].
+  split.
+  - intros toks a rest H. simpl in H.
+    destruct toks as [|t r]; [discriminate|].
+    destruct t; simpl in *.
+    + destruct (parse f r) as [[x r1]|] eqn:E1; [|discriminate]. simpl in H.
+      injection H as <- <-. destruct (IH1 _ _ _ E1) as [p ->]. exists (TNot :: p). reflexivity.
+    + destruct (parse f r) as [[x r1]|] eqn:E1; [|discriminate]. simpl in H.
+      destruct (parse f r1) as [[y r2]|] eqn:E2; [|discriminate]. simpl in H.
+      injection H as <- <-. destruct (IH1 _ _ _ E1) as [p ->]. destruct (IH1 _ _ _ E2) as [q ->].
+      exists (TBin op :: p ++ q). simpl. rewrite <- app_assoc. reflexivity.
+    + destruct (parse f r) as [[u r1]|] eqn:E1; [|discriminate]. simpl in H.
+      destruct u; try discriminate.
+      destruct (count z r1) as [n|]; [|discriminate]. simpl in H.
+      destruct (parse_many f n r1) as [[mem r2]|] eqn:E2; [|discriminate].
+      simpl in H. injection H as <- <-.
+      destruct (IH1 _ _ _ E1) as [p ->]. destruct (IH2 _ _ _ _ E2) as [q ->].
+      exists (TDollar :: p ++ q). simpl. rewrite <- app_assoc. reflexivity.
+    + destruct (parse f r) as [[u r1]|] eqn:E1; [|discriminate]. simpl in H.
+      destruct u; try discriminate. injection H as <- <-.
+      destruct (IH1 _ _ _ E1) as [p ->]. exists (TQuestion :: p). reflexivity.
+    + destruct (IH1 _ _ _ H) as [p ->]. exists (TAt :: p). reflexivity.
+    + injection H as <- <-. exists [TName s]. reflexivity.
+    + injection H as <- <-. exists [TNum z]. reflexivity.
+  - intros n toks xs rest H. simpl in H. destruct n as [|n].
+    + injection H as <- <-. exists []. reflexivity.
+    + destruct (parse f toks) as [[x r1]|] eqn:E1; [|discriminate]. simpl in H.
+      destruct (parse_many f n r1) as [[ys r2]|] eqn:E2; [|discriminate].
+      simpl in H. injection H as <- <-.
+      destruct (IH1 _ _ _ E1) as [p ->]. destruct (IH2 _ _ _ _ E2) as [q ->].
+      exists (p ++ q). rewrite <- app_assoc. reflexivity.
+Qed.
+
+(* the operand of `$` and `?` is a number exactly if the next token is one *)
+Lemma parse_num : forall f r z r1,
+  parse f r = Some (ANum z, r1) -> no_at r -> r = TNum z :: r1.
+Proof.
+  induction f as [|f IH]; intros r z r1 H NA; [discriminate|].
+  simpl in H. destruct r as [|t r]; [discriminate|].
+  destruct t; simpl in H.
+  - destruct (parse f r) as [[x r2]|]; simpl in H; discriminate.
+  - destruct (parse f r) as [[x r2]|]; simpl in H; [|discriminate].
+    destruct (parse f r2) as [[y r3]|]; simpl in H; discriminate.
+  - destruct (parse f r) as [[u r2]|]; simpl in H; [|discriminate].
+    destruct u; try discriminate.
+    destruct (count z0 r2); simpl in H; [|discriminate].
+    destruct (parse_many f n r2) as [[mm r3]|]; simpl in H; discriminate.
+  - destruct (parse f r) as [[u r2]|]; simpl in H; [|discriminate].
+    destruct u; discriminate.
+  - exfalso. apply NA. left. reflexivity.
+  - discriminate.
+  - injection H as <- <-. reflexivity.
+Qed.
+
+Lemma rec_sound : forall f,
+  (forall toks a rest, parse f toks = Some (a, rest) -> no_at toks ->
+     forall mem v, flatten mem a = Some v -> E mem toks v rest) /\
+  (forall n toks es rest, parse_many f n toks = Some (es, rest) -> no_at toks ->
+     forall m m', fill_with flatten es m = Some m' -> Pfill n m toks m' rest).
+Proof.
+  induction f as [|f [IH1 IH2]]; [split; intros; discriminate|].
+  split.
+  - intros toks a rest H NA mem v FL. simpl in H.
+    destruct toks as [|t r]; [discriminate|].
+    assert (NAr : no_at r) by (eapply no_at_tl, NA).
+    destruct t; simpl in H.
+    + (* NOT *)
+      destruct (parse f r) as [[x r1]|] eqn:E1; [|discriminate]. simpl in H.
+      injection H as <- <-. simpl in FL.
+      destruct (flatten mem x) as [u|] eqn:FX; [|discriminate]. simpl in FL.
+      destruct (IH1 _ _ _ E1 NAr mem u FX) as [sx1 [P1 X1']].
+      exists (X1 sx1). split; [constructor; exact P1|]. simpl. rewrite X1'. exact FL.
+    + (* binary *)
+      destruct (parse f r) as [[x r1]|] eqn:E1; [|discriminate]. simpl in H.
+      destruct (parse f r1) as [[y r2]|] eqn:E2; [|discriminate]. simpl in H.
+      injection H as <- <-.
+      assert (NA1 : no_at r1).
+      { destruct (proj1 (parse_suffix f) _ _ _ E1) as [pre ->]. eapply no_at_suffix, NAr. }
+      assert (GEN : forall u w, flatten mem x = Some u -> flatten mem y = Some w ->
+                ap2 op u w = Some v -> E mem (TBin op :: r) v r2).
+      { intros u w FX FY A.
+        destruct (IH1 _ _ _ E1 NAr mem u FX) as [sx1 [P1 X1']].
+        destruct (IH1 _ _ _ E2 NA1 mem w FY) as [sx2 [P2 X2']].
+        exists (X2 op sx1 sx2). split; [econstructor; eauto|].
+        simpl. rewrite X1', X2'. exact A. }
+      destruct op; simpl in FL;
+        try (destruct (flatten mem x) as [u|] eqn:FX; [|discriminate]; simpl in FL;
+             destruct (flatten mem y) as [w|] eqn:FY; [|discriminate]; simpl in FL;
+             eapply GEN; eauto; fail).
+      (* \S: the back end has no rename *)
+      destruct (flatten mem y) as [w|]; [|discriminate]. simpl in FL.
+      destruct x; try discriminate.
+      destruct (fill_with flatten mem0 []) as [mm|]; [|discriminate]. simpl in FL.
+      destruct mm; [discriminate|]. rewrite ren_none in FL. discriminate.
+    + (* $ *)
+      destruct (parse f r) as [[u r1]|] eqn:E1; [|discriminate]. simpl in H.
+      destruct u; try discriminate.
+      apply parse_num in E1; [|exact NAr]. subst r.
+      destruct (count z r1) as [n|] eqn:C; [|discriminate]. simpl in H.
+      destruct (parse_many f n r1) as [[es r2]|] eqn:E2; [|discriminate].
+      simpl in H. injection H as <- <-. simpl in FL.
+      destruct (fill_with flatten es []) as [mm|] eqn:FW; [|discriminate]. simpl in FL.
+      assert (NA1 : no_at r1) by (eapply no_at_tl, NAr).
+      exists (XV v). split; [|reflexivity].
+      eapply P_buf; [exact C| |exact FL]. eapply IH2; eauto.
+    + (* ? *)
+      destruct (parse f r) as [[u r1]|] eqn:E1; [|discriminate]. simpl in H.
+      destruct u; try discriminate. injection H as <- <-.
+      apply parse_num in E1; [|exact NAr]. subst r. simpl in FL.
+      exists (XV v). split; [constructor; exact FL|reflexivity].
+    + exfalso. apply NA. left. reflexivity.
+    + injection H as <- <-. simpl in FL.
+      exists (XV v). split; [constructor; exact FL|reflexivity].
+    + injection H as <- <-. simpl in FL.
+      exists (XV v). split; [constructor; exact FL|reflexivity].
+  - intros n toks es rest H NA m m' FW. simpl in H. destruct n as [|n].
+    + injection H as <- <-. simpl in FW. injection FW as <-. constructor.
+    + destruct (parse f toks) as [[x r1]|] eqn:E1; [|discriminate]. simpl in H.
+      destruct (parse_many f n r1) as [[ys r2]|] eqn:E2; [|discriminate].
+      simpl in H. injection H as <- <-. simpl in FW.
+      destruct (flatten (Some m) x) as [s|] eqn:FX; [|discriminate]. simpl in FW.
+      destruct (IH1 _ _ _ E1 NA (Some m) s FX) as [sx1 [P1 X1']].
+      assert (NA1 : no_at r1).
+      { destruct (proj1 (parse_suffix f) _ _ _ E1) as [pre ->]. eapply no_at_suffix, NA. }
+      econstructor; eauto.
+Qed.
+
+Lemma rec_complete :
+  (forall mem toks x rest, P mem toks x rest ->
+     forall f, f > List.length toks ->
+     exists a, parse f toks = Some (a, rest) /\
+               forall v, xeval x = Some v -> flatten mem a = Some v) /\
+  (forall n m toks m' rest, Pfill n m toks m' rest ->
+     forall f, f > S (List.length toks) ->
+     exists es, parse_many f n toks = Some (es, rest) /\
+                fill_with flatten es m = Some m').
+Proof.
+  apply P_Pfill_ind.
+  - intros mem s r v V f Hf. destruct f; [lia|]. simpl.
+    eexists. split; [reflexivity|]. intros v0 Hv. injection Hv as <-. exact V.
+  - intros mem z r v V f Hf. destruct f; [lia|]. simpl.
+    eexists. split; [reflexivity|]. intros v0 Hv. injection Hv as <-. exact V.
+  - intros mem z r v V f Hf. destruct f as [|[|f]]; simpl in Hf; [lia|lia|]. simpl.
+    eexists. split; [reflexivity|]. intros v0 Hv. injection Hv as <-. exact V.
+  - intros mem z r n m r1 v C PF IH L f Hf.
+    destruct f as [|[|f]]; simpl in Hf; [lia|lia|].
+    destruct (IH (S f)) as [es [PM FW]]; [lia|].
+    exists (ABuf es). split.
+    + change (parse (S (S f)) (TDollar :: TNum z :: r))
+        with (obind (parse (S f) (TNum z :: r)) (fun '(u, r1) =>
+              match u with
+              | ANum z => obind (count z r1) (fun n =>
+                          obind (parse_many (S f) n r1) (fun '(mem, r2) => Some (ABuf mem, r2)))
+              | _ => None end)).
+      simpl parse. cbn [obind]. rewrite C. cbn [obind]. rewrite PM. reflexivity.
+    + intros v0 Hv. injection Hv as <-. simpl. rewrite FW. exact L.
+  - intros mem r x r1 Px IH f Hf. destruct f; [simpl in Hf; lia|].
+    destruct (IH f) as [a [PA FA]]; [simpl in Hf; lia|].
+    exists (ANot a). split; [simpl; rewrite PA; reflexivity|].
+    intros v Hv. simpl in Hv. destruct (xeval x) as [u|]; [|discriminate].
+    simpl in Hv. simpl. rewrite (FA u eq_refl). exact Hv.
+  - intros mem op r x r1 y r2 Px IHx Py IHy f Hf. destruct f; [simpl in Hf; lia|].
+    assert (L1 := proj1 P_shorter _ _ _ _ Px).
+    destruct (IHx f) as [a [PA FA]]; [simpl in Hf; lia|].
+    destruct (IHy f) as [b [PB FB]]; [simpl in Hf; lia|].
+    exists (ABin op a b). split; [simpl; rewrite PA; simpl; rewrite PB; reflexivity|].
+    intros v Hv. simpl in Hv.
+    destruct (xeval x) as [u|]; [|discriminate]. simpl in Hv.
+    destruct (xeval y) as [w|]; [|discriminate]. simpl in Hv.
+    destruct op; simpl; try (rewrite (FA u eq_refl); simpl; rewrite (FB w eq_refl); exact Hv).
+    rewrite ap2_rename_none in Hv. discriminate.
+  - intros m toks f Hf. destruct f; [lia|]. exists []. split; reflexivity.
+  - intros n m toks x r1 s m' rest Px IHx Xs PF IHf f Hf.
+    destruct f; [lia|].
+    assert (L1 := proj1 P_shorter _ _ _ _ Px).
+    destruct (IHx f) as [a [PA FA]]; [lia|].
+    destruct (IHf f) as [es [PM FW]]; [lia|].
+    exists (a :: es). split.
+    + simpl. rewrite PA. simpl. rewrite PM. reflexivity.
+    + simpl. rewrite (FA s Xs). simpl. exact FW.
+Qed.
+
+Theorem rec_spec : forall toks v,
+  no_at toks -> (rec_add_expr D dtrue dfalse var node ap1 ap2 ren toks = Some v <-> E None toks v []).
+Proof.
+  intros toks v NA. unfold rec_add_expr. split.
+  - intros H. destruct (parse (S (List.length toks)) toks) as [[a rest]|] eqn:PA; [|discriminate].
+    simpl in H. destruct rest; [|discriminate].
+    eapply (proj1 (rec_sound _)); eauto.
+  - intros [x [Px Xv]].
+    destruct (proj1 rec_complete _ _ _ _ Px (S (List.length toks))) as [a [PA FA]]; [lia|].
+    rewrite PA. simpl. apply FA, Xv.
+Qed.
+
+
+(* ------------------------------------------------ the iterative translator *)
+Inductive Pseq (mem : option (list D)) : nat -> list tok -> list sx -> list tok -> Prop :=
+| Pseq_0 : forall toks, Pseq mem 0 toks [] toks
+| Pseq_S : forall n toks x r1 xs rest,
+    P mem toks x r1 -> Pseq mem n r1 xs rest -> Pseq mem (S n) toks (x :: xs) rest.
+
+Lemma Pseq_shorter : forall mem n toks xs rest,
+  Pseq mem n toks xs rest -> List.length rest <= List.length toks.
+Proof.
+  induction 1; [lia|]. apply (proj1 P_shorter) in H. lia.
+Qed.
+
+Lemma increase_S : forall f mem toks, increase (S f) mem toks = loop f mem [] 1 toks.
+Proof. reflexivity. Qed.
+
+Lemma loop_S : forall f mem stack need toks,
+  loop (S f) mem stack need toks =
+  match need with
+  | O => obind (reduce stack) (fun r => Some (r, toks))
+  | S need' =>
+    match toks with
+    | [] => None
+    | TName s :: r =>
+        obind (var s) (fun v => loop f mem (stack ++ [SVal v]) need' r)
+    | TNum z :: r =>
+        obind (num z) (fun v => loop f mem (stack ++ [SVal v]) need' r)
+    | TNot :: r => loop f mem (stack ++ [SOp1]) need r
+    | TBin op :: r => loop f mem (stack ++ [SOp2 op]) (S need) r
+    | TQuestion :: TNum z :: r =>
+        obind (reg mem z) (fun v => loop f mem (stack ++ [SVal v]) need' r)
+    | TQuestion :: _ => None
+    | TDollar :: TNum z :: r =>
+        obind (count z r) (fun n =>
+        obind (fill f n [] r) (fun '(m, r1) =>
+        match last_opt m with
+        | None => None
+        | Some v => loop f mem (stack ++ [SVal v]) need' r1
+        end))
+    | TDollar :: _ => None
+    | TAt :: _ => None
+    end
+  end.
+Proof. reflexivity. Qed.
+
+Lemma fill_S : forall f n m toks,
+  fill (S f) n m toks =
+  match n with
+  | O => Some (m, toks)
+  | S n' => obind (increase f (Some m) toks) (fun '(s, r1) => fill f n' (m ++ [s]) r1)
+  end.
+Proof. reflexivity. Qed.
+
+Lemma iter_sound : forall f,
+  (forall mem toks v rest, increase f mem toks = Some (v, rest) -> E mem toks v rest) /\
+  (forall mem stack need toks v rest,
+     loop f mem stack need toks = Some (v, rest) ->
+     exists xs, Pseq mem need toks xs rest /\
+                reduce (stack ++ flat_map ser xs) = Some v) /\
+  (forall n m toks m' rest, fill f n m toks = Some (m', rest) -> Pfill n m toks m' rest).
+Proof.
+  induction f as [|f [IHi [IHl IHf]]]; [repeat split; intros; discriminate|].
+  split; [|split].
+  - intros mem toks v rest H. rewrite increase_S in H.
+    destruct (IHl _ _ _ _ _ _ H) as [xs [PS R]].
+    inversion PS as [|? ? x r1 xs' ? Px PS']; subst. inversion PS'; subst.
+    simpl in R. rewrite app_nil_r in R. rewrite reduce_ser_one in R.
+    exists x. split; assumption.
+  - intros mem stack need toks v rest H.
+    destruct need as [|need'].
+    + rewrite loop_S in H.
+      destruct (reduce stack) as [r|] eqn:R; cbn [obind] in H; [|discriminate].
+      injection H as <- <-. exists []. split; [constructor|].
+      simpl. rewrite app_nil_r. exact R.
+    + destruct toks as [|t r]; [discriminate|].
+      destruct t; rewrite loop_S in H.
+      * (* NOT *)
+        destruct (IHl _ _ _ _ _ _ H) as [xs [PS R]].
+        inversion PS as [|? ? x r1 xs' ? Px PS']; subst.
+        exists (X1 x :: xs'). split; [econstructor; [constructor; exact Px|exact PS']|].
+        simpl. simpl in R. rewrite <- app_assoc in R. exact R.
+      * (* binary *)
+        destruct (IHl _ _ _ _ _ _ H) as [xs [PS R]].
+        inversion PS as [|? ? x r1 xs' ? Px PS']; subst.
+        inversion PS' as [|? ? y r2 xs'' ? Py PS'']; subst.
+        exists (X2 op x y :: xs''). split.
+        -- econstructor; [econstructor; eauto|exact PS''].
+        -- simpl. simpl in R. rewrite <- !app_assoc in R. rewrite <- !app_assoc. exact R.
+      * (* $ *)
+        destruct r as [|t2 r]; cbn [obind] in H; [discriminate|].
+        destruct t2; cbn [obind] in H; try discriminate.
+        destruct (count z r) as [n|] eqn:C; cbn [obind] in H; [|discriminate].
+        destruct (fill f n [] r) as [[m r1]|] eqn:FL; cbn [obind] in H; [|discriminate].
+        destruct (last_opt m) as [v0|] eqn:L; cbn [obind] in H; [|discriminate].
+        destruct (IHl _ _ _ _ _ _ H) as [xs [PS R]].
+        exists (XV v0 :: xs). split.
+        -- econstructor; [|exact PS]. eapply P_buf; eauto.
+        -- simpl. rewrite <- app_assoc in R. exact R.
+      * (* ? *)
+        destruct r as [|t2 r]; cbn [obind] in H; [discriminate|].
+        destruct t2; cbn [obind] in H; try discriminate.
+        destruct (reg mem z) as [v0|] eqn:RG; cbn [obind] in H; [|discriminate].
+        destruct (IHl _ _ _ _ _ _ H) as [xs [PS R]].
+        exists (XV v0 :: xs). split.
+        -- econstructor; [|exact PS]. constructor. exact RG.
+        -- simpl. rewrite <- app_assoc in R. exact R.
+      * discriminate.
+      * destruct (var s) as [v0|] eqn:V; cbn [obind] in H; [|discriminate].
+        destruct (IHl _ _ _ _ _ _ H) as [xs [PS R]].
+        exists (XV v0 :: xs). split.
+        -- econstructor; [|exact PS]. constructor. exact V.
+        -- simpl. rewrite <- app_assoc in R. exact R.
+      * destruct (num z) as [v0|] eqn:V; cbn [obind] in H; [|discriminate].
+        destruct (IHl _ _ _ _ _ _ H) as [xs [PS R]].
+        exists (XV v0 :: xs). split.
+        -- econstructor; [|exact PS]. constructor. exact V.
+        -- simpl. rewrite <- app_assoc in R. exact R.
+  - intros n m toks m' rest H. rewrite fill_S in H. destruct n as [|n].
+    + injection H as <- <-. constructor.
+    + destruct (increase f (Some m) toks) as [[s r1]|] eqn:I; [|discriminate].
+      cbn [obind] in H. destruct (IHi _ _ _ _ I) as [x [Px Xs]].
+      econstructor; eauto.
+Qed.
+
+Lemma iter_complete : forall f,
+  (forall mem toks v rest, E mem toks v rest -> f >= 2 * List.length toks + 2 ->
+     increase f mem toks = Some (v, rest)) /\
+  (forall mem stack need toks xs rest v,
+     Pseq mem need toks xs rest -> reduce (stack ++ flat_map ser xs) = Some v ->
+     f >= 2 * List.length toks + 1 ->
+     loop f mem stack need toks = Some (v, rest)) /\
+  (forall n m toks m' rest, Pfill n m toks m' rest -> f >= 2 * List.length toks + 3 ->
+     fill f n m toks = Some (m', rest)).
+Proof.
+  induction f as [|f [IHi [IHl IHf]]]; [repeat split; intros; lia|].
+  split; [|split].
+  - intros mem toks v rest [x [Px Xv]] Hf. rewrite increase_S.
+    apply (IHl mem [] 1 toks [x] rest v).
+    + econstructor; [exact Px|constructor].
+    + simpl. rewrite app_nil_r, reduce_ser_one. exact Xv.
+    + lia.
+  - intros mem stack need toks xs rest v PS R Hf. rewrite loop_S.
+    inversion PS as [|n ? x r1 xs' ? Px PS']; subst.
+    + simpl in R. rewrite app_nil_r in R. rewrite R. reflexivity.
+    + assert (LS := Pseq_shorter _ _ _ _ _ PS').
+      inversion Px as [? s r v0 V|? z r v0 V|? z r v0 V|? z r n0 m r2 v0 C PF L
+                       |? r x1 r2 Px1|? op r x1 r2 y1 r3 Px1 Py1]; subst.
+      * rewrite V. cbn [obind]. apply (IHl _ _ _ _ xs'); [exact PS'| |simpl in Hf; lia].
+        simpl in R. rewrite <- app_assoc. exact R.
+      * rewrite V. cbn [obind]. apply (IHl _ _ _ _ xs'); [exact PS'| |simpl in Hf; lia].
+        simpl in R. rewrite <- app_assoc. exact R.
+      * rewrite V. cbn [obind]. apply (IHl _ _ _ _ xs'); [exact PS'| |simpl in Hf; lia].
+        simpl in R. rewrite <- app_assoc. exact R.
+      * rewrite C. cbn [obind].
+        assert (LF := proj2 P_shorter _ _ _ _ _ PF).
+        rewrite (IHf _ _ _ _ _ PF) by (simpl in Hf; lia). cbn [obind].
+        rewrite L. apply (IHl _ _ _ _ xs'); [exact PS'| |simpl in Hf; lia].
+        simpl in R. rewrite <- app_assoc. exact R.
+      * apply (IHl _ _ _ _ (x1 :: xs')); [econstructor; eauto| |simpl in Hf; lia].
+        simpl in R. simpl. rewrite <- app_assoc. exact R.
+      * apply (IHl _ _ _ _ (x1 :: y1 :: xs')); [econstructor; [eauto|econstructor; eauto]| |simpl in Hf; lia].
+        simpl in R. simpl. rewrite <- !app_assoc in R. rewrite <- !app_assoc. exact R.
+  - intros n m toks m' rest PF Hf. rewrite fill_S.
+    inversion PF as [|n0 ? ? x r1 s ? ? Px Xs PF']; subst; [reflexivity|].
+    assert (L1 := proj1 P_shorter _ _ _ _ Px).
+    rewrite (IHi (Some m) toks s r1) by (try (exists x; split; assumption); lia).
+    cbn [obind]. apply IHf; [exact PF'|lia].
+Qed.
+
+Theorem iter_spec : forall toks v,
+  iter_add_expr D dtrue dfalse var node ap1 ap2 toks = Some v <-> E None toks v [].
+Proof.
+  intros toks v. unfold iter_add_expr. split.
+  - intros H.
+    destruct (increase (2 * S (List.length toks)) None toks) as [[r rest]|] eqn:I; [|discriminate].
+    simpl in H. destruct rest; [|discriminate]. injection H as <-.
+    eapply (proj1 (iter_sound _)); eauto.
+  - intros HE. rewrite (proj1 (iter_complete _) _ _ _ _ HE) by lia. reflexivity.
+Qed.
+
+(* parsers_agree *)
+Theorem parsers_agree : forall toks,
+  no_at toks ->
+  rec_add_expr D dtrue dfalse var node ap1 ap2 ren toks =
+  iter_add_expr D dtrue dfalse var node ap1 ap2 toks.
+Proof.
+  intros toks NA.
+  destruct (rec_add_expr D dtrue dfalse var node ap1 ap2 ren toks) as [v|] eqn:R.
+  - apply (rec_spec toks v NA) in R. apply iter_spec in R. symmetry. exact R.
+  - destruct (iter_add_expr D dtrue dfalse var node ap1 ap2 toks) as [w|] eqn:I; [|reflexivity].
+    apply iter_spec in I. apply (rec_spec toks w NA) in I. congruence.
+Qed.
+
 End Agree.
